@@ -227,6 +227,18 @@ func init() {
 					}
 				}
 			}
+			// compression names beyond the documented ones (other letter case, aliases, levels), should the tree take them:
+			// the member names, magic numbers and streams must still agree
+			for _, comp := range []string{"XZ", "Zstd", "ZSTD", "None", "NONE", "Gzip", "GZIP", "zst", "gz", "xz:6", "zstd:19", "gzip:9", "none:0", " xz", "xz "} {
+				for _, l := range [][]model.Entry{{ts[0]}, {ts[0], ts[6]}} {
+					if !yield(C04Case{Class: "candidate-compression", Format: "deb", Setting: Setting{Name: "deb.compression=" + comp, DebCompress: comp, Only: "deb"}, List: l}) {
+						return
+					}
+					if !yield(C04Case{Class: "candidate-compression", Format: "rpm", Setting: Setting{Name: "rpm.compression=" + comp, RPMCompress: comp, Only: "rpm"}, List: l}) {
+						return
+					}
+				}
+			}
 			// one-letter names at the top of the tree, the root directory itself as an entry (a file system image)
 			for _, f := range Formats {
 				for _, l := range [][]model.Entry{
@@ -417,6 +429,10 @@ func checkC04(env *engine.Env, ci any) engine.Outcome {
 		if want.Unclear != "" || want.Collision || want.OtherErr != "" {
 			out.Key = "rejected-config"
 			return out
+		}
+		if c.Class == "candidate-compression" {
+			out.Key = "candidate-compression:" + c.Setting.Name + ":refused"
+			return out // a compression name this tree does not take: nothing to judge
 		}
 		viol("wellformed:build-error:"+f+":"+c.Class, "valid configuration, packaging failed: %v", err)
 		return out
